@@ -244,6 +244,7 @@ def _run_form(name, spec, res):
 
     res["kernel_hashes"].append(hashlib.sha256(c.encode()).hexdigest()[:16])
     want_itypes = spec.get("itypes")
+    done_pairs = set()
     for itd in fref.fd.integral_data:
         itype = itd.integral_type
         if want_itypes and itype not in want_itypes:
@@ -252,32 +253,61 @@ def _run_form(name, spec, res):
         nw, nc, nx, shape, nA, width, cel = kernel_layout(fref, itd)
         sids = sid_list(itd)
         for sid in sids[:1] if not spec.get("all_ids") else sids:
+            if (itype, sid) in done_pairs:
+                continue
+            done_pairs.add((itype, sid))
+            # all UFL integral groups that contribute to this (type, id) and all kernels listed for it
+            itds_sid = [d for d in fref.fd.integral_data if d.integral_type == itype and sid in sid_list(d)]
             knames = fd.kernels_for(itype, sid)
             if not knames:
                 res["violations"].append({"key": f"{name}:{itype}:{sid}:missing-kernel", "what": f"no kernel listed under ({itype},{sid})", "replay": None})
                 continue
+            by_dom = {}
             for kn in knames:
-                idesc = ids[kn]
-                kern = m.kernels[idesc.tt[scalar]] if idesc.tt.get(scalar) else None
-                if kern is None:
-                    res["violations"].append({"key": f"{name}:{kn}:no-{scalar}-kernel", "what": f"tabulate_tensor_{scalar} is NULL", "replay": None})
+                by_dom.setdefault(ids[kn].domain if itype in ("exterior_facet", "interior_facet") else None, []).append(kn)
+            for facet_cell, kns in by_dom.items():
+                kerns = []
+                for kn in kns:
+                    idesc = ids[kn]
+                    k_ = m.kernels[idesc.tt[scalar]] if idesc.tt.get(scalar) else None
+                    if k_ is None:
+                        res["violations"].append({"key": f"{name}:{kn}:no-{scalar}-kernel", "what": f"tabulate_tensor_{scalar} is NULL", "replay": None})
+                    else:
+                        kerns.append(k_)
+                if not kerns:
                     continue
-                res["kernels"] += 1
-                facet_cell = idesc.domain if itype in ("exterior_facet", "interior_facet") else None
+                kn = kns[0]
+                res["kernels"] += len(kerns)
                 cfgs = entity_configs(itype, cellname, tier, facet_cell)
                 for ci, ents in enumerate(cfgs):
                     ctx = Ctx()
                     inp = uflref.Inputs(ctx, nw, nc, nx, fref.complex_mode)
-                    kr = ksym.run_kernel(kern, ctx, inp, nA, entities=ents, perms=(0, 0))
-                    bad = [e for e in kr.interp.events if e.kind in ("oob_read", "oob_write", "uninit_read", "write_input", "redeclared")]
-                    if bad:
-                        res["events"].append(f"{name}:{kn}:{ents}: {bad[:3]}")
-                    R = uflref.integrate_group(ctx, inp, fref, itd, entities=ents, kernel_facet_cell=facet_cell)
+                    kr = None
+                    for k_ in kerns:
+                        kr_ = ksym.run_kernel(k_, ctx, inp, nA, entities=ents, perms=(0, 0))
+                        bad = [e for e in kr_.interp.events if e.kind in ("oob_read", "oob_write", "uninit_read", "write_input", "redeclared")]
+                        if bad:
+                            res["events"].append(f"{name}:{k_.name}:{ents}: {bad[:3]}")
+                        if kr is None:
+                            kr = kr_
+                        else:
+                            kr.A = [a + b for a, b in zip(kr.A, kr_.A)]
+                    R = {}
+                    for d_ in itds_sid:
+                        Rd = uflref.integrate_group(ctx, inp, fref, d_, entities=ents, kernel_facet_cell=facet_cell)
+                        R = uflref.av_add(uflref.AV(R), uflref.AV(Rd)).d
                     zero = CPoly(ctx.const(0), ctx.const(0)) if fref.complex_mode else ctx.const(0)
                     Rf = to_flat(R, shape, nA, zero)
                     res["configs"] += 1
                     base_env = geometry_env(cel, cellname, width, 0)
                     label = f"{name}:{itype}:{sid}:{kn[-12:]}:ents={ents}"
+
+                    def call_all(w, cc, x):
+                        A = None
+                        for k_ in kerns:
+                            A = ksym.call_c_kernel(lib, k_, nA, w, cc, x, ents, (0, 0), A0=A)
+                        return A
+
                     # translator self-validation against the real build of the same text
                     if ci == 0:
                         for s in (1, 2):
@@ -286,7 +316,7 @@ def _run_form(name, spec, res):
                                 res["inconclusive"].append(f"{label}: no concrete input inside the assumptions for self-validation")
                                 continue
                             w, cc, x = ksym.pack(inp, env)
-                            Ac = ksym.call_c_kernel(lib, kern, nA, w, cc, x, ents, (0, 0))
+                            Ac = call_all(w, cc, x)
                             val = ctx.evaluator(env)
                             As = np.array([complex(p.eval_with(val)) if isinstance(p, CPoly) else p.eval_with(val) for p in kr.A])
                             err = np.max(np.abs(Ac - As)) if nA else 0.0
@@ -297,7 +327,7 @@ def _run_form(name, spec, res):
                     viol = compare_values(ctx, kr.A, Rf, rel, stats, res, label, base_env=base_env)
                     for lab, env, D, rpoly, rel_, floor_ in viol:
                         w, cc, x = ksym.pack(inp, env)
-                        Ac = ksym.call_c_kernel(lib, kern, nA, w, cc, x, ents, (0, 0))
+                        Ac = call_all(w, cc, x)
                         idx = int(lab.split(".")[0])
                         kval = Ac[idx]
                         if lab.endswith(".im"):
